@@ -45,6 +45,8 @@ type c18Cluster struct {
 	gateRel bool
 	gated   bool
 	notes   []string
+	rf      int
+	q       *c03Quorum // C03conc: oracle evaluated when a mutating data call reaches a replica (nil otherwise)
 }
 
 var c18cur *c18Cluster
@@ -64,13 +66,38 @@ func (c18Transport) RoundTrip(req *http.Request) (*http.Response, error) {
 	return rec.Result(), nil
 }
 
-type c18IOs struct{ n *eb.ModelNode }
+type c18IOs struct {
+	cl   *c18Cluster
+	node int
+	n    *eb.ModelNode
+}
 
-func (x c18IOs) WriteAt(b []byte, off int64) (int, error) { return x.n.WriteAt(b, off) }
-func (x c18IOs) ReadAt(b []byte, off int64) (int, error)  { return x.n.ReadAt(b, off) }
-func (x c18IOs) Sync() (int, error)                       { return x.n.Sync() }
-func (x c18IOs) Unmap(o, l int64) (int, error)            { return x.n.Unmap(o, l) }
-func (x c18IOs) Close() error                             { return nil }
+func (x c18IOs) WriteAt(b []byte, off int64) (int, error) {
+	if q := x.cl.q; q != nil {
+		if err := q.reach(x.cl, x.node, "W", int(b[0]), off); err != nil {
+			return 0, err
+		}
+	}
+	return x.n.WriteAt(b, off)
+}
+func (x c18IOs) ReadAt(b []byte, off int64) (int, error) { return x.n.ReadAt(b, off) }
+func (x c18IOs) Sync() (int, error) {
+	if q := x.cl.q; q != nil {
+		if err := q.reach(x.cl, x.node, "S", 0, 0); err != nil {
+			return -1, err
+		}
+	}
+	return x.n.Sync()
+}
+func (x c18IOs) Unmap(o, l int64) (int, error) {
+	if q := x.cl.q; q != nil {
+		if err := q.reach(x.cl, x.node, "U", 0, o); err != nil {
+			return -1, err
+		}
+	}
+	return x.n.Unmap(o, l)
+}
+func (x c18IOs) Close() error { return nil }
 
 type c18Factory struct{ cl *c18Cluster }
 
@@ -81,7 +108,7 @@ func (f c18Factory) Create(address string) (types.Backend, error) {
 		return nil, fmt.Errorf("dial tcp %s: no route to host", address)
 	}
 	n--
-	r := remote.NewForVerif(address, c18ip(n)+":9502", c18IOs{cl.nodes[n]})
+	r := remote.NewForVerif(address, c18ip(n)+":9502", c18IOs{cl, n, cl.nodes[n]})
 	if err := r.VerifAttach(); err != nil {
 		return nil, err
 	}
@@ -144,25 +171,32 @@ func (cl *c18Cluster) rest(node int, action, body string) error {
 func c18Build(init string) (*c18Cluster, error) {
 	if !c18TransportSet {
 		http.DefaultTransport = c18Transport{}
-		os.Setenv("REPLICATION_FACTOR", "3")
 		c18TransportSet = true
 	}
-	cl := &c18Cluster{bes: map[int]*remote.Remote{}}
+	rf := 3
+	switch init {
+	case "rf2":
+		rf = 2
+	case "rf1":
+		rf = 1
+	}
+	os.Setenv("REPLICATION_FACTOR", fmt.Sprint(rf))
+	cl := &c18Cluster{bes: map[int]*remote.Remote{}, rf: rf}
 	c18cur = cl
 	for i := 0; i < 4; i++ {
 		cl.nodes = append(cl.nodes, eb.NewModelNode(c18addr(i)))
 	}
-	cl.c = controller.NewController(controller.WithName("vol"), controller.WithRF(3), controller.WithBackend(c18Factory{cl}),
+	cl.c = controller.NewController(controller.WithName("vol"), controller.WithRF(rf), controller.WithBackend(c18Factory{cl}),
 		controller.WithFrontend(&c18Frontend{}, "127.0.0.1"), controller.WithClusterIP("127.0.0.1"))
 	c := cl.c
-	for i := 0; i < 2; i++ {
+	for i := 0; i < rf/2+1; i++ {
 		if err := c.RegisterReplica(types.RegReplica{Address: c18ip(i), UUID: fmt.Sprintf("uuid-%d", i), RevCount: 1, RepType: "Backend", RepState: "closed"}); err != nil {
 			return nil, fmt.Errorf("register %d: %v", i, err)
 		}
 	}
 	v := c.VerifView()
 	if v.MaxRevReplica == "" {
-		return nil, fmt.Errorf("no replica elected after 2 registrations")
+		return nil, fmt.Errorf("no replica elected after %d registrations", rf/2+1)
 	}
 	if err := c.Start("tcp://" + v.MaxRevReplica + ":9502"); err != nil {
 		return nil, fmt.Errorf("start: %v", err)
@@ -200,6 +234,12 @@ func c18Build(init string) (*c18Cluster, error) {
 		}
 		return cl.rest(i, "setrebuilding", `{"rebuilding":false}`)
 	}
+	if rf == 1 {
+		if err := cl.writeAll(c, 9, 3); err != nil {
+			return nil, err
+		}
+		return cl, nil
+	}
 	second := 1 - first
 	if err := join(second, true); err != nil {
 		return nil, err
@@ -216,7 +256,7 @@ func c18Build(init string) (*c18Cluster, error) {
 		if err := join(2, false); err != nil {
 			return nil, err
 		}
-	case "rw2":
+	case "rw2", "rf2":
 	default:
 		return nil, fmt.Errorf("unknown init %q", init)
 	}
